@@ -7,6 +7,7 @@ import ScionTime.Proofs.NtsReply
 import ScionTime.Model.NtsPool
 import ScionTime.Gen.Nts
 import ScionTime.Gen.Server
+import ScionTime.Gen.Client
 namespace ScionTime.C11
 open ScionTime.Nts ScionTime.NtsPool
 
@@ -401,6 +402,16 @@ before it knows whether a unique identifier or an authenticator follows — and 
 stores everything that packet holds once a datagram authenticates. The statements below are about
 the loop as the code has it (`recvLoop`: a packet value of its own per datagram): whatever a
 refused datagram carried has no effect on the pool. -/
+
+/-- `recvLoop` looks at `maxNumRetries + 1` datagrams: the constant of both client functions -/
+theorem C11_pin_maxNumRetries :
+    Gen.Client.maxNumRetriesIP = (maxNumRetries : Int) ∧ Gen.Client.maxNumRetriesSCION = (maxNumRetries : Int) := by decide
+
+/-- `recvLoop` applies `response` — decoding from the empty packet — to every datagram: in both
+    client functions the variable handed to `nts.DecodePacket` is declared inside the body of the
+    receive loop (exported by `harness/extract/x_c11.go`). -/
+theorem C11_pin_recvLoopPacketScope :
+    Gen.Client.ntsRespPacketScopeIP = "loop" ∧ Gen.Client.ntsRespPacketScopeSCION = "loop" := by decide
 
 /-- a datagram the NTS stage refuses (or that makes it crash) leaves the client's state as it was -/
 theorem C11_response_refused_no_trace (A : AEAD) (st : Client) (b : Bytes) (h : (response A st b).2 ≠ .ok ()) :
